@@ -419,6 +419,48 @@ class CFG:
         walk(self.entry, [self.entry], frozenset())
         return out
 
+    def path_env(self, nodes, upto=None):
+        """local name -> value expression as assigned along the path `nodes` (earlier names substituted), up to node `upto`"""
+        import copy
+        env = {}
+
+        class Sub(ast.NodeTransformer):
+            def visit_Name(self, n):
+                if isinstance(n.ctx, ast.Load) and n.id in env:
+                    return copy.deepcopy(env[n.id])
+                return n
+        for x in nodes:
+            if x == upto:
+                break
+            s = self.stmt[x]
+            if isinstance(s, ast.Assign) and len(s.targets) == 1:
+                t = s.targets[0]
+                if isinstance(t, ast.Name):
+                    env[t.id] = Sub().visit(copy.deepcopy(s.value))
+                elif isinstance(t, ast.Tuple) and isinstance(s.value, ast.Tuple) and len(t.elts) == len(s.value.elts) \
+                        and all(isinstance(e, ast.Name) for e in t.elts):
+                    vals = [Sub().visit(copy.deepcopy(v)) for v in s.value.elts]
+                    for e, v in zip(t.elts, vals):
+                        env[e.id] = v
+                else:
+                    for n in ast.walk(t):
+                        if isinstance(n, ast.Name):
+                            env.pop(n.id, None)
+            elif isinstance(s, ast.AST) and not isinstance(s, (ast.If, ast.While)):
+                for name in _stored_simple(s):
+                    env.pop(name, None)
+        return env
+
+    def subst_env(self, expr, env):
+        import copy
+
+        class Sub(ast.NodeTransformer):
+            def visit_Name(self, n):
+                if isinstance(n.ctx, ast.Load) and n.id in env:
+                    return copy.deepcopy(env[n.id])
+                return n
+        return Sub().visit(copy.deepcopy(expr))
+
     # -- polarity-independent guards -------------------------------------------
     def cond_edges(self, atom, value):
         """edges (x, y, lab) out of If/While heads on which the atomic condition recognised by `atom` is known to
